@@ -67,6 +67,10 @@ CHECKS = {
             "Per (capacity, buffer, loader interval) configuration: short concurrent histories checked for linearizability against the relaxed bounded FIFO model, long runs with thousands of unique values checked for exactly-once, per-producer order, held <= cap+buf at every instant, Count bounds and Count = accepted-delivered at quiescence; the drain after producers stop uses only Poll / TakeWithTimeout / channel receives and reports stranded items by logical loader passes or the stuck detector; directed scenarios park the loader and the callers at hook points; plain ChannelQueue against BoundedFIFO; all repeated under -race.",
             "Trusted: porcupine and the relaxed model (Empty/Timeout always legal; Full legality by a necessary condition); hook counters as logical time; schedules sampled + a few directed park points.",
             "DESIGN.md section 5, C07"),
+    "C10": ("exploration", "per-(publish, subscription) delivery-count oracle over bounded-exhaustive re-entrant histories and stamped concurrent histories; hook-parked publisher; Go race detector",
+            "All sequential re-entrant histories with up to 3 (thorough 4) scripted subscribers x 1..3 publishes; 1..4 concurrent publishers x 1..4 subscribe/unsubscribe churners with call/return stamps, PRNG yields at the publisher's hook points or a publisher parked between snapshot and delivery; Map chains of depth 1..3 with two subscribers per level; SubscribeOn(h) with 1..4 subscribers and handler capacities 0..2 incl. goroutine identity; the concurrent parts repeated under -race (deciding for publisher.go).",
+            "Trusted: the registration-relation rule (before / after / overlapping => 0 or 1); one monotonic clock for the stamps; schedules sampled + two park points.",
+            "DESIGN.md section 5, C10"),
 }
 
 NOT_YET = "check not built yet in this session (runtime monitoring applies; see DESIGN.md section 5)"
